@@ -71,6 +71,14 @@ type EngineRunner struct {
 	sessionFirstFile uint32
 	so               *syncOracle
 	batchSync        bool
+	// crash machinery
+	markIdx        int
+	crashProp      string
+	maxCrashPoints int
+	byteCuts       int
+	opStart        int
+	curWrites      []histWrite
+	skipRanges     [][2]int // event ranges (of Close / Backup) whose interior is not a crash point
 }
 
 // checkFileLimit (C17): a data file exceeds DataFileSize only when it holds a single record
@@ -199,6 +207,9 @@ func (r *EngineRunner) installHooks() {
 		case "write":
 			ev = fmt.Sprintf("W %s %d", name, n)
 			r.so.event(r, "write", name, n)
+			if r.shadow != nil {
+				r.curWrites = append(r.curWrites, histWrite{path, int64(len(r.shadow.files[path].data)) + n})
+			}
 		case "sync":
 			ev = "S " + name
 			r.so.event(r, "sync", name, 0)
@@ -564,7 +575,11 @@ func RunEngineScript(lines []string, w *bufio.Writer, verbose bool) error {
 		return err
 	}
 	defer os.RemoveAll(root)
-	r := &EngineRunner{Root: root, dirs: map[string]string{}, Verbose: verbose, ref: newRefModel(), so: newSyncOracle()}
+	r := &EngineRunner{Root: root, dirs: map[string]string{}, Verbose: verbose, ref: newRefModel(), so: newSyncOracle(),
+		shadow: newShadowFS(), maxCrashPoints: 40, byteCuts: 2}
+	if os.Getenv("VERIF_TIER") == "thorough" {
+		r.maxCrashPoints, r.byteCuts = 400, 6
+	}
 	r.cur = "db"
 	r.dirs["db"] = filepath.Join(root, "db")
 	r.installHooks()
@@ -592,8 +607,23 @@ func RunEngineScript(lines []string, w *bufio.Writer, verbose bool) error {
 			fmt.Fprintln(w, ln)
 			continue
 		}
+		if f[1] == "mark" {
+			r.markIdx = r.shadow.count()
+			fmt.Fprintln(w, ln)
+			continue
+		}
+		if f[1] == "crashscan" {
+			r.crashLines(f, func(line, res string) { fmt.Fprintf(w, "%s => %s\n", line, res) })
+			emit()
+			continue
+		}
+		r.opStart = r.shadow.count()
+		r.curWrites = nil
 		// the events of a hook-free accessor must not leak into the next operation
 		res := r.Exec(f)
+		if f[1] == "close" || f[1] == "backup" {
+			r.skipRanges = append(r.skipRanges, [2]int{r.opStart, r.shadow.count()})
+		}
 		if f[1] == "pos" || f[1] == "files" {
 			r.events = nil
 		}
